@@ -134,6 +134,7 @@ def main(argv=None):
     mod = importlib.import_module('aegmon.props.' + prop.lower())
 
     if a.replay:
+        sys.path.insert(0, os.environ.get('AEGMON_REPO', '/repo'))      # same import rule as the workers
         with open(a.replay) as f:
             rp = json.load(f)
         from aegmon import worker
